@@ -1263,6 +1263,75 @@ class EArray(Engine):
             self.items = self.items + new
         return self._obs(st, r, take)
 
+    def ev_ctor(self, ev):
+        """Build a NEW Array from the model's state through a constructor route and carry on with it as the subject:
+        'building an Array' must give the list of the items / the data handed over, trailing bits last."""
+        B = self.B
+        how = ev.get('how', 'list')
+        use_tb = bool(ev.get('tb_kw'))
+        w, key = self.dt.w, self.dt.key
+        self._op, self._trig = 'ctor', self.tb('via-' + str(how))
+        kw = {}
+        trail = self.trail
+        if use_tb and trail:
+            kw['trailing_bits'] = '0b' + trail if ev.get('tb_as') != 'bits' else B.Bits(bin=trail)
+        h = None
+        if how in ('list', 'tuple', 'gen', 'array'):
+            vals = self.vals()
+            encs, bad, excs = self._encode_all(vals, self.dt)
+            if bad is not None or any(is_nan(v) for v in vals):
+                return {'skip': 'items do not re-encode (NaN payload / saturating code)'}
+            if any(_isint(v) and self.dt.kind == 'bytes' for v in vals):
+                return {'skip': 'bytes(n)'}
+            src = {'list': lambda: list(vals), 'tuple': lambda: tuple(vals), 'gen': lambda: (v for v in vals),
+                   'array': lambda: self.mk_array(key, ''.join(self.items))}[how]()
+            want_items = list(encs)
+            if not use_tb or not trail:
+                trail = ''
+            st, c = call(lambda: B.Array(key, src, **kw))
+        elif how == 'int':
+            n = len(self.items)
+            want_items = ['0' * w] * n
+            if not use_tb or not trail:
+                trail = ''
+            st, c = call(lambda: B.Array(key, n, **kw))
+        else:
+            bits = ''.join(self.items) + ('' if (use_tb and trail) else self.trail)
+            if how != 'bits' and len(bits) % 8:
+                bits = bits[:len(bits) - len(bits) % 8]
+            if how == 'bits':
+                src = B.Bits(bin=bits) if ev.get('cls') != 'BitArray' else B.BitArray(bin=bits)
+            else:
+                by = bits_to_bytes(bits)
+                if how == 'bytearray':
+                    src = bytearray(by)
+                elif how == 'memoryview':
+                    src = memoryview(by)
+                elif how == 'file':
+                    fs = self._fs()
+                    h = fs.open(fs.new_file(by), 'rb')
+                    src = h
+                else:
+                    src = by
+            st, c = call(lambda: B.Array(key, src, **kw))
+            want_items, rest = split(bits, w)
+            if how == 'file':
+                rest = ''       # a file initialiser is read like fromfile(): whole items only
+            if use_tb and trail:
+                if rest:
+                    # data that is not a whole number of items followed by explicit trailing bits: one bit sequence
+                    want_items, trail = split(bits + trail, w)
+            else:
+                trail = rest
+        if h is not None:
+            h.close()
+        if self.want_ok(st, c, how=how, tb_kw=use_tb):
+            self.items, self.trail = list(want_items), trail
+            self.a = c
+            self.it = None
+            self._verified = None
+        return self._obs(st, c)
+
     def ev_astype(self, ev):
         key = ev.get('dt2')
         if key not in TABLE:
@@ -1607,12 +1676,12 @@ class EArray(Engine):
               ('count', 3), ('contains', 1), ('tolist', 1), ('iter', 1.5), ('iter_start', 1), ('iter_next', 2.5),
               ('equals', 3), ('copy', 2), ('set_dtype', 3), ('set_data', 2), ('props', 1), ('op', 8), ('iop', 6),
               ('iop_unfit', 2.5), ('rop', 3), ('unary', 2), ('tobytes', 1), ('tofile', 1.5), ('fromfile', 2.5),
-              ('astype', 2), ('byteswap', 1), ('cache_clear', 2))
+              ('astype', 2), ('byteswap', 1), ('cache_clear', 2), ('ctor', 3))
     FOCUS = {'list': ('get', 'set', 'del', 'append', 'extend', 'insert', 'pop', 'reverse', 'count', 'iter_next'),
              'slices': ('getslice', 'setslice', 'setslice_f', 'delslice'),
              'ops': ('op', 'iop', 'iop_unfit', 'rop', 'unary'),
              'io': ('tofile', 'fromfile', 'tobytes', 'extend'),
-             'dtype': ('set_dtype', 'set_data', 'astype', 'equals', 'cache_clear'),
+             'dtype': ('set_dtype', 'set_data', 'astype', 'equals', 'cache_clear', 'ctor'),
              'faults': ('extend_f', 'setslice_f', 'iop_unfit', 'fromfile', 'cache_clear', 'set_dtype')}
 
     def gen(self, g):
@@ -1853,6 +1922,10 @@ class EArray(Engine):
         elif m < 0.5 and cur:
             bits = cur[:-1]
         return {'k': 'equals', 'other': 'array', 'dt2': key, 'bin': bits}
+
+    def g_ctor(self, g):
+        return {'k': 'ctor', 'how': g.pick(['list', 'list', 'tuple', 'gen', 'array', 'int', 'bits', 'bits', 'bytes', 'bytearray', 'memoryview', 'file']),
+                'tb_kw': g.chance(0.5), 'tb_as': g.pick(['str', 'bits']), 'cls': g.pick(['Bits', 'BitArray'])}
 
     def g_copy(self, g):
         how = g.wpick([('copy', 3), ('slice', 3), ('deepcopy', 1)])
